@@ -123,6 +123,31 @@ func runSlot(c *ctx) error {
 			}
 		}
 	}
+	// a report that arrives before its timeslot is acceptable and is replayed, byte for byte, once it is
+	{
+		if err := s.fresh("slot/early", t0); err != nil {
+			return err
+		}
+		for id := uint32(1); id <= 2; id++ {
+			if err := s.device(id, fmt.Sprintf("d%d", id), 10000); err != nil {
+				return err
+			}
+		}
+		r1 := s.ReportBytes(1, uint32(t0+500), 4000, "d1", 0)
+		r2 := s.ReportBytes(2, uint32(t0+500), 4100, "d2", 0)
+		s.Deliver(r1) // too early: nothing changes
+		s.Deliver(r2)
+		s.Tick(uint32(t0 + 100))
+		s.Deliver(r1) // now acceptable: recorded, however often it is replayed
+		s.Deliver(r1)
+		s.Deliver(s.ReportBytes(2, uint32(t0+99), 77, "d2", 0))
+		s.Deliver(r2)
+		s.SendUDP(r1)
+		nev += 7
+		if err := s.Restart(); err != nil {
+			return err
+		}
+	}
 	// random part: several devices and slots, replays, and the same multiset
 	// delivered in two different orders to two servers
 	rounds := 2
